@@ -139,7 +139,7 @@ def model_checking(res, tier, wd):
             t = open(cfg).read().replace("MaxRuns = 1", "MaxRuns = 2")
             cfg = os.path.join(wd, "MC_Sharing_%s_deep.cfg" % cfgname)
             open(cfg, "w").write(t)
-        return vlib.tlc(MC, cfg, workers=2, name="c07mc" + cfgname, timeout=1500, xmx="2g", extra=["-noGenerateSpecTE"])
+        return vlib.tlc(MC, cfg, workers=(2 if expect is None else 1), name="c07mc" + cfgname, timeout=1500, xmx="2g", extra=["-noGenerateSpecTE"])
     with ThreadPoolExecutor(max_workers=5) as ex:
         runs = list(ex.map(one, MC_RUNS))
     for (cfgname, expect), r in zip(MC_RUNS, runs):
@@ -263,6 +263,7 @@ def run(res, tier, seed):
         starts.append(pos); pos += len(ex_)
     import bisect
     bad_cases = set(crashed)
+    rejected_cases = set()
     seen_known = set()
     for rj in sorted(rejects, key=lambda r: r["line"]):
         xi = bisect.bisect_right(starts, rj["line"]) - 1
@@ -273,13 +274,14 @@ def run(res, tier, seed):
         if ev.get("e") == "Write" and what != "main":
             key = key_of(kind, ev)
             if key in known:
+                rejected_cases.add(ci)
                 if (ci, key) not in seen_known:
                     seen_known.add((ci, key))
                     res.known(known[key])
                 continue
         bad_cases.add(ci)
         res.violation("%s %s %s: %s" % (kind, cases[ci][2], cases[ci][3], rj["msg"][:400]), ex_[:k + 1])
-    res.cov["traces_validated_against_impl"] = len(cases) - len(bad_cases)
+    res.cov["traces_validated_against_impl"] = len(cases) - len(bad_cases | rejected_cases)   # accepted without any rejection
 
     # ---- coverage
     nt, facs = set(), set()
